@@ -12,7 +12,7 @@ from symex.poly import pall_in, pand, pconcat, pcontains, peq, pimplies, plen, p
 
 PROPERTY = "C04"
 BOUNDS = {
-    "quick": {"string values": "<= 3 solver characters, printable ASCII incl. space and URL-reserved characters, no '/'", "ints": "solver ints with <= 5 digits (signed where the converter allows)",
+    "quick": {"string values": "<= 3 solver characters, ASCII U+0001..U+007E incl. control characters, space and URL-reserved characters, no '/'", "ints": "solver ints with <= 5 digits (signed where the converter allows)",
               "path values": "<= 4 characters, segments separated by single slashes", "script roots": ["/", "/app", "/app/"], "force_external": [False, True]},
     "thorough": {"string values": "<= 5 characters", "path values": "<= 6 characters"},
 }
@@ -85,7 +85,7 @@ def body_build_match(I, X, ep="s", script="/", external=False, n=2):
     if kind in ("str", "str2", "str+int"):
         ln = 2 if kind == "str2" else n
         x = X.str("x", ln, minlen=ln, maxcp=0x7E)
-        X.assume(pall_in(x, [(0x20, 0x7E)]))
+        X.assume(pall_in(x, [(0x01, 0x7E)]))
         X.assume(pnone_in(x, [0x2F]))
         X.assume(plen(x) > 0)
         values["x"] = x
@@ -100,7 +100,7 @@ def body_build_match(I, X, ep="s", script="/", external=False, n=2):
         values["n"] = X.int("n", -999, 9999)
     if kind == "path":
         p = X.str("p", n, minlen=n, maxcp=0x7E)
-        X.assume(pall_in(p, [(0x20, 0x7E)]))
+        X.assume(pall_in(p, [(0x01, 0x7E)]))
         X.assume(plen(p) > 0)
         X.assume(pnot(pstartswith(p, "/")))
         X.assume(pnot(p.endswith("/")) if hasattr(p, "endswith") else True)
@@ -135,7 +135,7 @@ def body_build_match(I, X, ep="s", script="/", external=False, n=2):
         ok = pand(got_ep == ep, len(got) == 1, "u" in got and peq(str(got["u"]) if not isinstance(got["u"], SymUUID) else got["u"].text, utext))
     else:
         ok = pand(got_ep == ep, len(got) == len(values), *[peq(got.get(k), v) for k, v in values.items()])
-    # the built URL is ASCII and contains no raw reserved delimiter that would end the path
+    # the built URL is printable ASCII and contains no raw reserved delimiter that would end the path
     ok = pand(ok, pall_in(url, [(0x21, 0x7E)]), pnone_in(url, [0x3F, 0x23]))
     if utext is not None:
         got = {k: (v.text if isinstance(v, SymUUID) else str(v)) for k, v in got.items()}
